@@ -737,6 +737,7 @@ func (s *Server) changeAndNotify(notification string, change func() bool) {
 // have an active subscriptions/listen stream that opted in to this
 // notification type.
 func (s *Server) notifySessions(n string) {
+	verifYield("notifySessions", n) // no-op unless built with -tags verif
 	s.mu.Lock()
 	s.pendingNotifications[n] = nil
 	// Legacy (pre-SEP-2575) sessions receive list-changed notifications on the
